@@ -90,19 +90,47 @@ func checkC06Fields(r *Report, p *Prog, rule string) {
 		ok := true
 		var desc []string
 		type alt struct {
-			v ssa.Value
-			b *ssa.BasicBlock
+			v  ssa.Value
+			b  *ssa.BasicBlock
+			fc *FuncCtx
 		}
 		var alts []alt
-		if ph, isPhi := st.Val.(*ssa.Phi); isPhi {
-			for i, e := range ph.Edges {
-				alts = append(alts, alt{e, ph.Block().Preds[i]})
+		var expand func(c *FuncCtx, v ssa.Value, b *ssa.BasicBlock, depth int)
+		expand = func(c *FuncCtx, v ssa.Value, b *ssa.BasicBlock, depth int) {
+			if ph, isPhi := v.(*ssa.Phi); isPhi {
+				for i, e := range ph.Edges {
+					expand(c, e, ph.Block().Preds[i], depth)
+				}
+				return
 			}
-		} else {
-			alts = []alt{{st.Val, st.Block()}}
+			// a window computed by a side-effect-free helper: its returns are the alternatives
+			var call *ssa.Call
+			idx := 0
+			switch x := v.(type) {
+			case *ssa.Call:
+				call = x
+			case *ssa.Extract:
+				if cc, ok := x.Tuple.(*ssa.Call); ok {
+					call, idx = cc, x.Index
+				}
+			}
+			if call != nil && depth < 2 {
+				if sc := call.Call.StaticCallee(); sc != nil && a.isPureModuleFunc(sc) && len(sc.Blocks) > 0 {
+					sub := c.inlineCtx(sc, call.Call.Args, call)
+					sub.ensureConds()
+					for _, ret := range sub.Returns() {
+						if idx < len(ret.Results) {
+							expand(sub, ret.Results[idx], ret.Block(), depth+1)
+						}
+					}
+					return
+				}
+			}
+			alts = append(alts, alt{v, b, c})
 		}
+		expand(fc, st.Val, st.Block(), 0)
 		for _, al := range alts {
-			tt := fc.TimeTermOf(al.v)
+			tt := al.fc.TimeTermOf(al.v)
 			desc = append(desc, tt.String())
 			if strings.HasSuffix(tt.Base, "IdpAuthnRequest.Now") && len(tt.Coef) == 1 && tt.Const == 0 {
 				good := false
@@ -117,13 +145,14 @@ func checkC06Fields(r *Report, p *Prog, rule string) {
 			}
 			// must be guarded by before(Now-1*skew, v)
 			guarded := false
-			for _, name := range B.Support(fc.Cond(al.b)) {
+			cnd := al.fc.AbsCond(al.b)
+			for _, name := range B.Support(cnd) {
 				ai := a.Atoms[name]
 				if ai == nil || ai.Kind != "before" || ai.TT[0] == nil {
 					continue
 				}
 				l, rr := ai.TT[0], ai.TT[1]
-				if strings.HasSuffix(l.Base, "IdpAuthnRequest.Now") && len(l.Coef) == 1 && rr.String() == tt.String() && B.Implies(fc.Cond(al.b), B.Var(name)) {
+				if strings.HasSuffix(l.Base, "IdpAuthnRequest.Now") && len(l.Coef) == 1 && rr.String() == tt.String() && B.Implies(cnd, B.Var(name)) {
 					for k, v := range l.Coef {
 						if strings.HasSuffix(k, "MaxClockSkew") && v == -1 {
 							guarded = true
@@ -137,36 +166,44 @@ func checkC06Fields(r *Report, p *Prog, rule string) {
 		}
 		r.Check(ok, rule, p.FnName(fn)+": Conditions.NotBefore never earlier than Now - 1*MaxClockSkew", p.InstrPos(st), strings.Join(desc, " | "), "an alternative of NotBefore is not bounded below by Now - MaxClockSkew: "+strings.Join(desc, " | "))
 	}
-	// attribute values come from the session only
-	nAttr := 0
-	for _, b := range fn.Blocks {
-		for _, in := range b.Instrs {
-			st, ok := in.(*ssa.Store)
-			if !ok {
-				continue
-			}
-			fa, ok := st.Addr.(*ssa.FieldAddr)
-			if !ok || !typeIs(fa.X.Type(), modPath, "AttributeValue") || fieldName(fa.X.Type(), fa.Field) != "Value" {
-				continue
-			}
-			nAttr++
+	// attribute values come from the session only (value literals may be built by helpers of the maker; the value is
+	// traced back through them, through phis and through local tables)
+	rg := NewRegion(p, fn, 2)
+	srcSeen := map[string]bool{}
+	for _, c := range rg.all {
+		r.Fn(p.FnName(c.fn))
+		for _, st := range litFields(c.fn, modPath, "AttributeValue")["Value"] {
 			ok2 := true
 			var ls []string
-			for _, lf := range rootLeaves(st.Val, map[ssa.Value]bool{}) {
-				ap := fc.AP(lf)
+			for _, lf := range rg.Origins(RV{V: st.Val, C: c}) {
+				if isEmptyStringConst(lf.V) {
+					continue
+				}
+				feas := rg.Ctx(a, c).AbsCond(st.Block())
+				for _, vb := range lf.Via {
+					vfc := rg.Ctx(a, vb.C)
+					vfc.ensureConds()
+					feas = B.And(feas, vfc.AbsCond(vb.B))
+				}
+				if feas == B.False {
+					continue
+				}
+				ap := rg.Ctx(a, lf.C).AP(lf.V)
 				ls = append(ls, ap)
+				srcSeen[ap] = true
 				if !strings.HasPrefix(ap, "Session.") {
 					ok2 = false
 				}
 			}
-			r.Check(ok2, rule, fmt.Sprintf("%s: attribute value <- %s", p.FnName(fn), strings.Join(ls, "|")), p.InstrPos(st), "from the session", "an attribute value does not come from the authenticated session: "+strings.Join(ls, ", "))
+			ls = uniqStrings(ls)
+			r.Check(ok2 && len(ls) > 0, rule, fmt.Sprintf("%s: attribute value <- %s", p.FnName(fn), strings.Join(ls, "|")), p.InstrPos(st), "from the session", "an attribute value does not come from the authenticated session: "+strings.Join(ls, ", "))
 		}
 	}
-	if nAttr < 5 {
-		r.Undecided(rule, p.FnName(fn)+": attribute values", p.Pos(fn.Pos()), fmt.Sprintf("only %d attribute value assignments found", nAttr))
+	if len(srcSeen) < 5 {
+		r.Undecided(rule, p.FnName(fn)+": attribute values", p.Pos(fn.Pos()), fmt.Sprintf("only %d distinct sources of attribute values found", len(srcSeen)))
 	}
-	// attributes appended to the statement are literals built here (or the session's custom attributes), never
-	// copies of objects from the SP's metadata
+	// attributes appended to the statement are literals built here or in a helper of the maker (or the session's custom
+	// attributes), never copies of objects from the SP's metadata
 	for _, b := range fn.Blocks {
 		for _, in := range b.Instrs {
 			c, ok := in.(*ssa.Call)
@@ -190,52 +227,57 @@ func checkC06Fields(r *Report, p *Prog, rule string) {
 				r.Check(strings.HasPrefix(ap, "Session."), rule, cons+" (spread "+ap+")", p.InstrPos(in), "the session's own attributes", "attributes are taken wholesale from "+ap)
 				continue
 			}
-			src := av
-			if ld, ok := av.(*ssa.UnOp); ok {
-				src = ld.X
-			}
-			al, isAlloc := src.(*ssa.Alloc)
-			if !isAlloc {
-				r.Bad(rule, cons, p.InstrPos(in), "the appended attribute is not a literal built in this function: "+fc.AP(av))
-				continue
-			}
-			copied := ""
-			for _, rf := range *al.Referrers() {
-				if st, ok := rf.(*ssa.Store); ok && st.Addr == ssa.Value(al) {
-					copied = fc.AP(st.Val)
+			for _, o := range rg.Origins(RV{V: av, C: rg.top}) {
+				src := o.V
+				if ld, ok := src.(*ssa.UnOp); ok {
+					src = ld.X
 				}
-			}
-			if copied != "" {
-				r.Bad(rule, cons+" (copied from "+copied+")", p.InstrPos(in), "the attribute object is copied from "+copied+" (values already present on it reach the assertion)")
-				continue
-			}
-			// its Values: a fresh slice literal
-			okV := true
-			for _, rf := range *al.Referrers() {
-				if fa, ok := rf.(*ssa.FieldAddr); ok && fieldName(fa.X.Type(), fa.Field) == "Values" {
-					for _, r2 := range *fa.Referrers() {
-						if st, ok := r2.(*ssa.Store); ok {
-							switch v := st.Val.(type) {
-							case *ssa.Slice:
-								if _, ok := v.X.(*ssa.Alloc); !ok {
-									okV = false
-								}
-							case *ssa.Phi, *ssa.Call:
-								// accumulated group values: built by append from literals in this function
-								for _, lf := range rootLeaves(st.Val, map[ssa.Value]bool{}) {
-									lap := fc.AP(lf)
-									if strings.Contains(lap, "RequestedAttribute") || strings.Contains(lap, "ServiceProviderMetadata") {
+				al, isAlloc := src.(*ssa.Alloc)
+				if !isAlloc {
+					r.Bad(rule, cons, p.InstrPos(in), "the appended attribute is not a literal built by the assertion maker: "+rg.Ctx(a, o.C).AP(o.V))
+					continue
+				}
+				ofc := rg.Ctx(a, o.C)
+				copied := ""
+				for _, rf := range *al.Referrers() {
+					if st, ok := rf.(*ssa.Store); ok && st.Addr == ssa.Value(al) {
+						copied = ofc.AP(st.Val)
+					}
+				}
+				if copied != "" {
+					r.Bad(rule, cons+" (copied from "+copied+")", p.InstrPos(in), "the attribute object is copied from "+copied+" (values already present on it reach the assertion)")
+					continue
+				}
+				// its Values: a fresh slice literal
+				okV := true
+				for _, rf := range *al.Referrers() {
+					if fa, ok := rf.(*ssa.FieldAddr); ok && fieldName(fa.X.Type(), fa.Field) == "Values" {
+						for _, r2 := range *fa.Referrers() {
+							if st, ok := r2.(*ssa.Store); ok {
+								for _, vo := range rg.Origins(RV{V: st.Val, C: o.C}) {
+									switch v := vo.V.(type) {
+									case *ssa.Slice:
+										if _, ok := v.X.(*ssa.Alloc); !ok {
+											okV = false
+										}
+									case *ssa.Call:
+										// accumulated group values: built by append from literals of the maker
+										for _, lf := range rootLeaves(v, map[ssa.Value]bool{}) {
+											lap := rg.Ctx(a, vo.C).AP(lf)
+											if strings.Contains(lap, "RequestedAttribute") || strings.Contains(lap, "ServiceProviderMetadata") {
+												okV = false
+											}
+										}
+									default:
 										okV = false
 									}
 								}
-							default:
-								okV = false
 							}
 						}
 					}
 				}
+				r.Check(okV, rule, cons+" (literal at "+p.InstrPos(al)+")", p.InstrPos(in), "literal with a fresh Values slice", "the attribute's Values do not come from a fresh literal built here")
 			}
-			r.Check(okV, rule, cons+" (literal at "+p.InstrPos(al)+")", p.InstrPos(in), "literal with a fresh Values slice", "the attribute's Values do not come from a fresh literal built here")
 		}
 	}
 	// nothing from the request except RemoteAddr -> Address and Request.ID / IssueInstant
@@ -336,6 +378,7 @@ type signedObj struct {
 
 func checkC06Signed(r *Report, p *Prog) {
 	rule := "C06.signed"
+	emitters := map[string]*Region{} // emitted field -> the sign-then-emit function with its helpers
 	for _, so := range []signedObj{
 		{"saml", "IdpAuthnRequest", "MakeAssertionEl", "Assertion", "AssertionEl"},
 		{"saml", "IdpAuthnRequest", "MakeResponse", "Response", "ResponseEl"},
@@ -345,85 +388,105 @@ func checkC06Signed(r *Report, p *Prog) {
 		B := a.B
 		fc := a.Ctx(fn)
 		fc.ensureConds()
-		r.Fn(p.FnName(fn))
-		signs := methodCallsOn(fn, "(*"+dsigPath+".SigningContext).SignEnveloped")
-		elems := methodCallsOn(fn, "(*"+modPath+"."+so.objType+").Element")
+		// the function and the helpers it is split into are one body
+		rg := NewRegion(p, fn, 2)
+		for _, f := range rg.Fns {
+			r.Fn(p.FnName(f))
+		}
+		emitters[so.outField] = rg
+		signs := rg.Calls("(*" + dsigPath + ".SigningContext).SignEnveloped")
+		elems := rg.Calls("(*" + modPath + "." + so.objType + ").Element")
 		cons := fmt.Sprintf("%s: %s signed, signature stored, tree rebuilt, then emitted", p.FnName(fn), so.objType)
 		if len(signs) != 1 || len(elems) < 2 {
 			r.Bad(rule, cons, p.Pos(fn.Pos()), fmt.Sprintf("%d SignEnveloped calls and %d Element() calls (expected one signing step between two builds)", len(signs), len(elems)))
 			continue
 		}
 		sign := signs[0]
-		// S1: signed tree is the first Element() build (possibly with the assertion added for the response)
-		s1 := derivesFrom(sign.Call.Args[1], elems[0], 0) || sign.Call.Args[1] == ssa.Value(elems[0])
-		r.Check(s1, rule, fmt.Sprintf("%s: the tree signed is %s.Element()", p.FnName(fn), so.objType), p.InstrPos(sign), "SignEnveloped(Element())", "the signature is computed over something other than the object's own element tree")
-		// S2: Signature field stored from the signed result under err == nil
-		var sigStore *ssa.Store
-		for _, b := range fn.Blocks {
-			for _, in := range b.Instrs {
-				st, ok := in.(*ssa.Store)
-				if !ok {
-					continue
-				}
-				if fa, ok := st.Addr.(*ssa.FieldAddr); ok && fieldName(fa.X.Type(), fa.Field) == "Signature" && typeIs(fa.X.Type(), modPath, so.objType) {
-					sigStore = st
-				}
+		signCall := sign.I.(*ssa.Call)
+		// S1: signed tree is an Element() build (possibly with the assertion added for the response)
+		s1 := false
+		for _, e := range elems {
+			if rg.DerivesFrom(RV{V: signCall.Call.Args[1], C: sign.C}, e) {
+				s1 = true
 			}
 		}
-		if sigStore == nil {
+		r.Check(s1, rule, fmt.Sprintf("%s: the tree signed is %s.Element()", p.FnName(fn), so.objType), p.InstrPos(sign.I), "SignEnveloped(Element())", "the signature is computed over something other than the object's own element tree")
+		// S2: Signature field stored from the signed result under err == nil
+		var sigStore RI
+		rg.Each(func(x RI) {
+			st, ok := x.I.(*ssa.Store)
+			if !ok {
+				return
+			}
+			if fa, ok := st.Addr.(*ssa.FieldAddr); ok && fieldName(fa.X.Type(), fa.Field) == "Signature" && typeIs(fa.X.Type(), modPath, so.objType) {
+				sigStore = x
+			}
+		})
+		if sigStore.I == nil {
 			r.Bad(rule, fmt.Sprintf("%s: Signature stored on the %s", p.FnName(fn), so.objType), p.Pos(fn.Pos()), "the signature element is never stored on the object: the emitted tree is unsigned")
 			continue
 		}
-		errA := "isnil(" + fc.AP(sign) + "#1)"
-		s2 := derivesFrom(sigStore.Val, sign, 0) && B.HasVar(errA) && fc.Implied(sigStore.Block(), B.Var(errA))
-		r.Check(s2, rule, fmt.Sprintf("%s: Signature <- element of the SignEnveloped result, under err == nil", p.FnName(fn)), p.InstrPos(sigStore), fc.AP(sigStore.Val), "the stored Signature does not come from the signing result (or is stored although signing failed)")
+		sst := sigStore.I.(*ssa.Store)
+		// the store runs only after the signing step succeeded: in the function holding the store, the signing call
+		// (or the call of the helper that contains it) returned a nil error
+		sfc := a.Ctx(sst.Parent())
+		sfc.ensureConds()
+		s2 := false
+		if via, ok := rg.SiteIn(sigStore.C, sign).(*ssa.Call); ok && via != nil {
+			n := via.Call.Signature().Results().Len()
+			errA := "isnil(" + sfc.AP(via) + fmt.Sprintf("#%d)", n-1)
+			if n == 1 {
+				errA = "isnil(" + sfc.AP(via) + ")"
+			}
+			s2 = rg.DerivesFrom(RV{V: sst.Val, C: sigStore.C}, sign) && B.HasVar(errA) && sfc.Implied(sst.Block(), B.Var(errA))
+		}
+		r.Check(s2, rule, fmt.Sprintf("%s: Signature <- element of the SignEnveloped result, under err == nil", p.FnName(fn)), p.InstrPos(sst), sfc.AP(sst.Val), "the stored Signature does not come from the signing result (or is stored although signing failed)")
 		// S3: a rebuild after the store, S4: that rebuild (or its ciphertext) is what is emitted
-		var rebuilt *ssa.Call
+		var rebuilt RI
 		for _, e := range elems {
-			if domOrSame(sigStore, e) {
+			if rg.Before(sigStore, e) {
 				rebuilt = e
 			}
 		}
-		if rebuilt == nil {
-			r.Bad(rule, fmt.Sprintf("%s: element tree rebuilt after the Signature was stored", p.FnName(fn)), p.InstrPos(sigStore), "the emitted tree is the pre-signature build")
+		if rebuilt.I == nil {
+			r.Bad(rule, fmt.Sprintf("%s: element tree rebuilt after the Signature was stored", p.FnName(fn)), p.InstrPos(sst), "the emitted tree is the pre-signature build")
 			continue
 		}
-		r.OK(rule, fmt.Sprintf("%s: element tree rebuilt after the Signature was stored", p.FnName(fn)), p.InstrPos(rebuilt), "Element() dominated by the Signature store")
+		r.OK(rule, fmt.Sprintf("%s: element tree rebuilt after the Signature was stored", p.FnName(fn)), p.InstrPos(rebuilt.I), "Element() dominated by the Signature store")
 		nOut := 0
-		for _, b := range fn.Blocks {
-			for _, in := range b.Instrs {
-				st, ok := in.(*ssa.Store)
-				if !ok {
-					continue
-				}
-				fa, ok := st.Addr.(*ssa.FieldAddr)
-				if !ok || fieldName(fa.X.Type(), fa.Field) != so.outField || !typeIs(fa.X.Type(), modPath, "IdpAuthnRequest") {
-					continue
-				}
-				nOut++
-				c2 := fmt.Sprintf("%s: %s <- the signed tree (or its ciphertext)", p.FnName(fn), so.outField)
-				okOut := false
-				why := "the element emitted is neither the rebuilt signed tree nor an EncryptedAssertion holding its ciphertext: " + fc.AP(st.Val)
-				if st.Val == ssa.Value(rebuilt) {
-					okOut = true
-				} else if so.outField == "AssertionEl" {
-					okOut, why = encryptedFrom(fn, fc, st.Val, rebuilt)
-				}
-				r.Check(okOut, rule, c2+" ["+p.InstrPos(st)+"]", p.InstrPos(st), "signed tree / ciphertext of the signed tree", why)
+		rg.Each(func(x RI) {
+			st, ok := x.I.(*ssa.Store)
+			if !ok {
+				return
 			}
-		}
+			fa, ok := st.Addr.(*ssa.FieldAddr)
+			if !ok || fieldName(fa.X.Type(), fa.Field) != so.outField || !typeIs(fa.X.Type(), modPath, "IdpAuthnRequest") {
+				return
+			}
+			nOut++
+			c2 := fmt.Sprintf("%s: %s <- the signed tree (or its ciphertext)", p.FnName(fn), so.outField)
+			okOut := false
+			why := "the element emitted is neither the rebuilt signed tree nor an EncryptedAssertion holding its ciphertext: " + a.Ctx(st.Parent()).AP(st.Val)
+			if rg.IsFrom(RV{V: st.Val, C: x.C}, rebuilt) {
+				okOut = true
+			} else if so.outField == "AssertionEl" {
+				okOut, why = encryptedFrom(rg, RV{V: st.Val, C: x.C}, rebuilt)
+			}
+			r.Check(okOut, rule, c2+" ["+p.InstrPos(st)+"]", p.InstrPos(st), "signed tree / ciphertext of the signed tree", why)
+		})
 		if nOut == 0 {
 			r.Bad(rule, p.FnName(fn)+": "+so.outField+" written", p.Pos(fn.Pos()), "never written")
 		}
 		if so.objType == "Response" {
 			// the assertion element is added to the rebuilt response tree
 			added := false
-			for _, c := range methodCallsOn(fn, "(*"+etreePath+".Element).AddChild") {
-				if c.Call.Args[0] == ssa.Value(rebuilt) && strings.HasSuffix(fc.AP(c.Call.Args[1]), "IdpAuthnRequest.AssertionEl") {
+			for _, x := range rg.Calls("(*" + etreePath + ".Element).AddChild") {
+				c := x.I.(*ssa.Call)
+				if rg.IsFrom(RV{V: c.Call.Args[0], C: x.C}, rebuilt) && strings.HasSuffix(a.Ctx(c.Parent()).AP(c.Call.Args[1]), "IdpAuthnRequest.AssertionEl") {
 					added = true
 				}
 			}
-			r.Check(added, rule, p.FnName(fn)+": the (signed/encrypted) assertion element is added to the signed response tree", p.InstrPos(rebuilt), "AddChild(req.AssertionEl)", "the emitted response tree does not contain req.AssertionEl")
+			r.Check(added, rule, p.FnName(fn)+": the (signed/encrypted) assertion element is added to the signed response tree", p.InstrPos(rebuilt.I), "AddChild(req.AssertionEl)", "the emitted response tree does not contain req.AssertionEl")
 		}
 	}
 	// who may write the emitted elements
@@ -442,7 +505,7 @@ func checkC06Signed(r *Report, p *Prog) {
 					continue
 				}
 				f := fieldName(fa.X.Type(), fa.Field)
-				if (f == "AssertionEl" && fn.Name() != "MakeAssertionEl") || (f == "ResponseEl" && fn.Name() != "MakeResponse") {
+				if rg := emitters[f]; rg != nil && !rg.in[fn] {
 					r.Bad(rule, fmt.Sprintf("%s: writes IdpAuthnRequest.%s", p.FnName(fn), f), p.InstrPos(in), "the emitted element is written outside the sign-then-emit function")
 				}
 			}
@@ -470,33 +533,43 @@ func checkC06Signed(r *Report, p *Prog) {
 }
 
 // encryptedFrom: v is an element whose only added child is Encrypt(cert, bytes) with bytes the
-// serialisation of a document rooted at signed.
-func encryptedFrom(fn *ssa.Function, fc *FuncCtx, v ssa.Value, signed *ssa.Call) (bool, string) {
-	var adds []*ssa.Call
-	for _, c := range methodCallsOn(fn, "(*"+etreePath+".Element).AddChild") {
-		if c.Call.Args[0] == v {
-			adds = append(adds, c)
+// serialisation of a document rooted at signed (looked for across the region).
+func encryptedFrom(rg *Region, v RV, signed RI) (bool, string) {
+	p := rg.P
+	// the element object(s) v stands for
+	objs := rg.Origins(v)
+	var adds []RI
+	for _, x := range rg.Calls("(*" + etreePath + ".Element).AddChild") {
+		c := x.I.(*ssa.Call)
+		hit := false
+		for _, o2 := range rg.Origins(RV{V: c.Call.Args[0], C: x.C}) {
+			for _, o := range objs {
+				if o2.V == o.V && o2.C == o.C {
+					hit = true
+				}
+			}
+		}
+		if hit {
+			adds = append(adds, x)
 		}
 	}
 	if len(adds) != 1 {
 		return false, fmt.Sprintf("the EncryptedAssertion element gets %d children (expected exactly the EncryptedData)", len(adds))
 	}
-	child := adds[0].Call.Args[1]
-	if mi, ok := child.(*ssa.MakeInterface); ok {
-		child = mi.X
+	var enc RI
+	for _, o := range rg.Origins(RV{V: adds[0].I.(*ssa.Call).Call.Args[1], C: adds[0].C}) {
+		if ex, ok := o.V.(*ssa.Extract); ok {
+			if c, ok := ex.Tuple.(*ssa.Call); ok && (c.Call.IsInvoke() && c.Call.Method.Name() == "Encrypt" || c.Call.StaticCallee() != nil && c.Call.StaticCallee().Name() == "Encrypt") {
+				enc = RI{c, o.C}
+			}
+		}
 	}
-	ex, ok := child.(*ssa.Extract)
-	if !ok {
-		return false, "the child of the EncryptedAssertion is not the result of an Encrypt call"
-	}
-	enc, ok := ex.Tuple.(*ssa.Call)
-	if !ok || !(enc.Call.IsInvoke() && enc.Call.Method.Name() == "Encrypt" || enc.Call.StaticCallee() != nil && enc.Call.StaticCallee().Name() == "Encrypt") {
+	if enc.I == nil {
 		return false, "the child of the EncryptedAssertion is not the result of an Encrypt call"
 	}
 	// plaintext argument: bytes of a document whose root is the signed tree
-	args := enc.Call.Args
 	var pt ssa.Value
-	for _, ar := range args {
+	for _, ar := range enc.I.(*ssa.Call).Call.Args {
 		if strings.Contains(ar.Type().String(), "[]byte") && !isNilConst(ar) {
 			pt = ar
 			break
@@ -505,16 +578,14 @@ func encryptedFrom(fn *ssa.Function, fc *FuncCtx, v ssa.Value, signed *ssa.Call)
 	if pt == nil {
 		return false, "no plaintext argument found on the Encrypt call"
 	}
-	// pt is a phi/extract of doc.WriteToBytes(); find SetRoot(signed) on the same doc
 	okRoot := false
-	for _, c := range methodCallsOn(fn, "(*"+etreePath+".Document).SetRoot") {
-		if c.Call.Args[1] == ssa.Value(signed) {
-			doc := c.Call.Args[0]
-			for _, lf := range rootLeaves(pt, map[ssa.Value]bool{}) {
-				if d2, _, _ := serialisationOf(fc.A.P, lf); d2 != nil && d2 == doc {
-					okRoot = true
-				}
-			}
+	for _, o := range rg.Origins(RV{V: pt, C: enc.C}) {
+		fn := enc.I.Parent()
+		if o.C != nil {
+			fn = o.C.fn
+		}
+		if el := serialisedElement(p, fn, o.V); el != nil && rg.IsFrom(RV{V: el, C: o.C}, signed) {
+			okRoot = true
 		}
 	}
 	if !okRoot {
@@ -550,12 +621,10 @@ func checkC06Post(r *Report, p *Prog) {
 		detail := fc.AP(st.Val)
 		if c, okc := st.Val.(*ssa.Call); okc && c.Call.StaticCallee() != nil && strings.HasSuffix(c.Call.StaticCallee().String(), "Encoding).EncodeToString") {
 			buf := c.Call.Args[1]
-			for _, sr := range methodCallsOn(pb, "(*"+etreePath+".Document).SetRoot") {
-				if strings.HasSuffix(fc.AP(sr.Call.Args[1]), "IdpAuthnRequest.ResponseEl") {
-					if d2, _, _ := serialisationOf(p, buf); d2 != nil && d2 == sr.Call.Args[0] {
-						ok = true
-					}
-				}
+			// the bytes are the serialisation of a document rooted at req.ResponseEl (directly, or through a helper that
+			// wraps its element argument in a fresh document)
+			if el := serialisedElement(p, pb, buf); el != nil && strings.HasSuffix(fc.AP(el), "IdpAuthnRequest.ResponseEl") {
+				ok = true
 			}
 			enc := fc.AP(c.Call.Args[0])
 			if !strings.Contains(enc, "StdEncoding") {
@@ -659,29 +728,37 @@ func checkC06Ctx(r *Report, p *Prog) {
 	fc := a.Ctx(fn)
 	fc.ensureConds()
 	r.Fn(p.FnName(fn))
+	// the construction may be split over helpers (an IdentityProvider method building the context): one body
+	rg := NewRegion(p, fn, 2)
 	// key / signer
 	okKey := false
-	for _, c := range methodCallsOn(fn, dsigPath+".NewSigningContext") {
-		if strings.HasSuffix(fc.AP(c.Call.Args[0]), "IdpAuthnRequest.IDP.Signer") {
+	for _, x := range rg.Calls(dsigPath + ".NewSigningContext") {
+		if strings.HasSuffix(rg.Ctx(a, x.C).AP(x.I.(*ssa.Call).Call.Args[0]), "IdpAuthnRequest.IDP.Signer") {
 			okKey = true
 		}
 	}
-	lf := litFields(fn, "crypto/tls", "Certificate")
-	okPriv := len(lf["PrivateKey"]) == 1 && strings.HasSuffix(fc.AP(lf["PrivateKey"][0].Val), "IdpAuthnRequest.IDP.Key")
-	r.Check(okKey && okPriv, rule, p.FnName(fn)+": signs with the IdP's Signer, else the IdP's Key", p.Pos(fn.Pos()), "Signer / Key of req.IDP", "the signing key does not come from the IdP configuration")
-	// chain starts with the IdP certificate
-	okChain := false
-	for _, b := range fn.Blocks {
-		for _, in := range b.Instrs {
-			if st, ok := in.(*ssa.Store); ok {
-				if ia, ok := st.Addr.(*ssa.IndexAddr); ok {
-					if k, ok := constInt(ia.Index); ok && k == 0 && strings.HasSuffix(fc.AP(st.Val), "IdpAuthnRequest.IDP.Certificate.Raw") {
-						okChain = true
+	okPriv, okChain := false, false
+	for _, c := range rg.all {
+		cfc := rg.Ctx(a, c)
+		r.Fn(p.FnName(c.fn))
+		lf := litFields(c.fn, "crypto/tls", "Certificate")
+		if len(lf["PrivateKey"]) == 1 && strings.HasSuffix(cfc.AP(lf["PrivateKey"][0].Val), "IdpAuthnRequest.IDP.Key") {
+			okPriv = true
+		}
+		// chain starts with the IdP certificate
+		for _, b := range c.fn.Blocks {
+			for _, in := range b.Instrs {
+				if st, ok := in.(*ssa.Store); ok {
+					if ia, ok := st.Addr.(*ssa.IndexAddr); ok {
+						if k, ok := constInt(ia.Index); ok && k == 0 && strings.HasSuffix(cfc.AP(st.Val), "IdpAuthnRequest.IDP.Certificate.Raw") {
+							okChain = true
+						}
 					}
 				}
 			}
 		}
 	}
+	r.Check(okKey && okPriv, rule, p.FnName(fn)+": signs with the IdP's Signer, else the IdP's Key", p.Pos(fn.Pos()), "Signer / Key of req.IDP", "the signing key does not come from the IdP configuration")
 	r.Check(okChain, rule, p.FnName(fn)+": certificate chain starts with the IdP certificate", p.Pos(fn.Pos()), "chain[0] = req.IDP.Certificate.Raw", "the chain handed to the signing context does not start with the IdP's certificate")
 	// method
 	for _, c := range methodCallsOn(fn, "(*"+dsigPath+".SigningContext).SetSignatureMethod") {
